@@ -15,8 +15,8 @@ from harness import c02
 
 PROP = 'C17'
 META = {
-    'extractors': ['lex'],
-    'technique': 'Lean 4 proof (two-level escaping per character, induction over argument and row) over the extracted _quote_like_special chain + reference lexers + reference LIKE matcher + differential correspondence',
+    'extractors': ['lex', 'pylex'],
+    'technique': 'Lean 4 proof (two-level escaping per character, induction over argument and row) over the extracted _quote_like_special chain + reference lexers + reference LIKE matcher + differential correspondence + TRANSLATOR tie (pylex.py: _quote_like_special, _LikeQuoted, LIKE, STARTSWITH/ENDSWITH/CONTAINSSTRING translated into the PyLex deep embedding on every run and proved equal to the hand model, C17_translated_*)',
     'level_text': ('Theorems C17_*: for every dialect, every argument a and every stored string s, the pattern literal rendered by '
                    'startswith/endswith/contains (extracted replace chain, escape choice, wrappers), decoded by the dialect\'s reference '
                    'lexer and run through the reference LIKE matcher with the decoded ESCAPE character, matches s iff s starts with / ends '
@@ -33,7 +33,13 @@ META = {
                 'reference string lexers (Model/Lex.lean), python transcriptions in harness/c02.py'],
     'modelled': ['SQLite LIKE / ESCAPE / ASCII case folding (executed, not verified)',
                  'mysql / postgres / firebird / sybase / maxdb / mssql LIKE: standard semantics assumed, no server here'],
-    'assumptions': ['mssql / sybase: the argument contains no "[" (T-SQL LIKE treats [..] as a character class; _quote_like_special does not escape it — suspected defect outside the reference matcher)',
+    'assumptions': ['TRANSLATED source (Extracted/PyLex.lean, Model/PyLex.lean, Model/LexX.lean): _quote_like_special, _LikeQuoted.__init__/__add__/__radd__/__sqlrepr__, '
+                    'LIKE.__init__/__sqlrepr__, STARTSWITH/ENDSWITH/CONTAINSSTRING, unquote_str, quote_str, StringLikeConverter and sqlrepr are translated from the AST on '
+                    'every run and proved equal to the hand model (C17_translated_*); assumed interface: str.upper is a per-character mapping with the facts UpperOK '
+                    '(stream upper-table checks them on all code points), the exact-class converter registry (extracted registerConverter table), which classes have '
+                    '__sqlrepr__, isinstance through the extracted bases/aliases; the CPython semantics of str.replace / % / slicing / join are built into the embedding '
+                    'and cross-checked only through the text-equality streams (real code vs hand model)',
+                    'mssql / sybase: the argument contains no "[" (T-SQL LIKE treats [..] as a character class; _quote_like_special does not escape it — suspected defect outside the reference matcher)',
                     'the LIKE comparison uses one character equivalence for pattern and data; collation-specific expansions are not modelled'],
     'exhaustive': False,
 }
@@ -227,11 +233,36 @@ def gen_args(ctx):
     return args
 
 
+def upper_table(ctx):
+    """the facts about `str.upper` the translated `unquote_str` proof assumes (LexX.UpperOK), on ALL code points, and
+    that upper() maps character by character (corpus of context-sensitive candidates + seeded random pairs)"""
+    bad = []
+    if 'E'.upper() != 'E' or 'e'.upper() != 'E' or "'".upper() != "'":
+        bad.append('E/e/quote')
+    for c in range(0x110000):
+        u = chr(c).upper()
+        if not u:
+            bad.append('empty:%x' % c)
+        elif u[0] == 'E' and c not in (69, 101):
+            bad.append('E:%x' % c)
+        elif u[0] == "'" and c != 39:
+            bad.append('quote:%x' % c)
+    specials = ['\u03c3', '\u03c2', '\u00df', '\ufb01', 'i', '\u0307', '\u01f0', '\u0149', "'", 'e', 'E', '\u0345', '\u1e9e']
+    pairs = [(a, b) for a in specials for b in specials]
+    for _ in range(400):
+        pairs.append((chr(ctx.rng.randrange(0x110000)), chr(ctx.rng.randrange(0x110000))))
+    for a, b in pairs:
+        if (a + b).upper() != a.upper() + b.upper():
+            bad.append('context:%x+%x' % (ord(a), ord(b)))
+    ctx.compare('upper-table', {'check': 'UpperOK + per-character'}, 'ok', 'ok' if not bad else ','.join(bad[:8]))
+
+
 def run(ctx):
     e = env()
     rows = e['rows']
     rowset = set(rows)
     args = gen_args(ctx)
+    upper_table(ctx)
     # rows sent to the model matcher: all of them for sqlite (compared with the engine), a rotating sample elsewhere
     lines = []
     plan = []
